@@ -575,7 +575,8 @@ pub fn run(op: &str, a: &Args) -> Option<Outcome> {
             Some(Outcome { observed, expected, note: String::new() })
         }
         ["info", "attr_norm"] => Some(crate::ops_more::info_attr_norm(arg(a, "doc"), arg(a, "expected"))),
-        ["info", "roundtrip"] => Some(crate::ops_more::info_roundtrip(arg(a, "doc"))),
+        ["info", "roundtrip"] | ["info", "roundtrip_corpus"] => Some(crate::ops_more::info_roundtrip(arg(a, "doc"))),
+        ["info", "build_print_corpus"] => Some(crate::ops_more::info_build_print_inproc(arg(a, "doc"))),
         ["info", "reject"] => Some(crate::ops_more::info_reject(arg(a, "doc"))),
         ["info", "attr_defaults"] => Some(crate::ops_more::info_attr_defaults(arg(a, "doc"), arg(a, "expected"))),
         ["info", "namespace_names"] => Some(crate::ops_more::info_namespace_names(arg(a, "doc"), arg(a, "expected"))),
@@ -821,6 +822,20 @@ pub fn grid(op: &str, limit: usize) -> (usize, Vec<(Args, Outcome)>) {
             }
             // token-level mutants of well-formed documents that an independent parser (expat) rejects: tools/gen_illformed.py
             for line in crate::ops_more::ILL_FORMED_MUTANTS.lines() {
+                let d = crate::ops_more::unescape_line(line);
+                try_one(mk(&[("doc", d.as_str())]), &mut n, &mut bad);
+            }
+        }
+        ["info", "roundtrip_corpus"] => {
+            // the well-formed token-level mutants of tools/gen_illformed.py: print, parse, print must be a fixpoint (or the document is not accepted)
+            for line in crate::ops_more::WELL_FORMED_MUTANTS.lines() {
+                let d = crate::ops_more::unescape_line(line);
+                try_one(mk(&[("doc", d.as_str())]), &mut n, &mut bad);
+            }
+        }
+        ["info", "build_print_corpus"] => {
+            // every mutant, well-formed or not: parsing, building and printing must not panic (in process: none of them nests deeply)
+            for line in crate::ops_more::WELL_FORMED_MUTANTS.lines().chain(crate::ops_more::ILL_FORMED_MUTANTS.lines()) {
                 let d = crate::ops_more::unescape_line(line);
                 try_one(mk(&[("doc", d.as_str())]), &mut n, &mut bad);
             }
